@@ -91,6 +91,8 @@ type Sched struct {
 	// RelPaths: change into the directory above the out dir and hand the generator relative paths
 	// (the way the CLI is normally used), instead of absolute ones.
 	RelPaths bool
+	// FixedSchedule: goroutines of the generator are interleaved as in the zero-tape baseline
+	FixedSchedule bool
 }
 
 // relativise changes the working directory to base and returns the paths relative to it plus a restore func.
@@ -162,6 +164,7 @@ func RunInProcess(inv Invocation, inDir, outDir string, s Sched, root string) (r
 	simos.CLIMode = false
 	simos.Ambient, verifhook.Ambient = s.Ambient, s.Ambient
 	verifhook.Stall = s.Stall
+	verifhook.SchedFixed = s.FixedSchedule
 	simos.Reset(s.FaultAt, s.Kind, s.TornNum, s.TornDen)
 	goroutinesBefore := runtime.NumGoroutine()
 	func() {
@@ -221,6 +224,7 @@ func RunInProcess(inv Invocation, inDir, outDir string, s Sched, root string) (r
 	simos.Reset(-1, simos.KNone, 1, 2)
 	simos.Ambient, verifhook.Ambient = 0, 0
 	verifhook.Stall = false
+	verifhook.SchedFixed = false
 	verifhook.ResetRun(nil, nil)
 	verifhook.EventLog = nil
 	return
